@@ -36,11 +36,13 @@ vars == <<ph, shape, v, call, out>>
 (***************************************************************************)
 (* shapes                                                                   *)
 (***************************************************************************)
-Sh(k, bs, n, ins, parts) == [k |-> k, bs |-> bs, n |-> n, ins |-> ins, parts |-> parts]
+Sh(k, bs, n, ins, parts) == [k |-> k, bs |-> bs, n |-> n, ins |-> ins, junk |-> 0, parts |-> parts]
 D(n)          == Sh("dense", 1, n, <<>>, <<>>)
 B(bs, n)      == Sh("blocked", bs, n, <<>>, <<>>)
-S(n, ins)     == Sh("sparse", 1, n, ins, <<>>)       \* ins: 0-based indices in insertion order (a repeated index = overwrite)
-SB(bs, n, ins) == Sh("sblocked", bs, n, ins, <<>>)
+\* sparse kinds carry their WRITE HISTORY: ins = the 0-based indices in the order they are written through
+\* operator()(index, value); an index written again is an overwrite, every superseded write stores `junk`
+S(n, ins, junk) == [Sh("sparse", 1, n, ins, <<>>) EXCEPT !.junk = junk]
+SB(bs, n, ins, junk) == [Sh("sblocked", bs, n, ins, <<>>) EXCEPT !.junk = junk]
 T(parts)      == Sh("tuple", 1, 0, <<>>, parts)
 P(parts)      == Sh("power", 1, 0, <<>>, parts)      \* all parts have the same type (lengths may differ)
 
@@ -60,9 +62,15 @@ Stored(sh) == IF sh.k \in {"sparse", "sblocked"}
               THEN {e * sh.bs + j : e \in {sh.ins[q] : q \in 1..Len(sh.ins)}, j \in 1..sh.bs}
               ELSE 1..FlatLen(sh)
 
-\* insertion orders of an index set: ascending, descending, and ascending with the first index inserted twice
-Orders(Ix) == LET asc == SetToSortSeq(Ix, <) IN
-              {asc, [q \in 1..Len(asc) |-> asc[Len(asc) + 1 - q]]} \cup (IF Ix = {} THEN {} ELSE {asc \o <<asc[1]>>})
+\* write histories of an index set: ascending, descending (no overwrite), and with overwrites: the first index
+\* rewritten at the end, the last index written first and rewritten in turn, the first index written three times
+HasDup(o) == \E a, b \in 1..Len(o) : a # b /\ o[a] = o[b]
+Orders(Ix) == LET asc == SetToSortSeq(Ix, <)  nn == Len(asc) IN
+              {asc, [q \in 1..nn |-> asc[nn + 1 - q]]} \cup
+              (IF Ix = {} THEN {} ELSE {asc \o <<asc[1]>>, <<asc[nn]>> \o asc, <<asc[1]>> \o asc \o <<asc[1]>>})
+\* the superseded value: larger than / smaller than every live entry of every palette, and of smallest magnitude --
+\* an implementation that lets a superseded value take part in max/min/min_abs/max_abs is caught by one of them
+Junks(o) == IF HasDup(o) THEN {2000, -2000, 0} ELSE {0}
 
 Shapes ==
   CASE Family = "dense"   -> {D(n) : n \in 0..MaxLen}
@@ -79,8 +87,8 @@ Shapes ==
          {P(<<D(a), D(b), D(2)>>) : a, b \in 0..MaxLen} \cup
          {P(<<B(2, a), B(2, b)>>) : a, b \in 0..MaxLen} \cup
          {P(<<T(<<D(a), B(2, 1)>>), T(<<D(1), B(2, b)>>)>>) : a, b \in 0..MaxLen}
-    [] Family = "sparse"  -> UNION {UNION {{S(n, o) : o \in Orders(Ix)} : Ix \in SUBSET (0..(n-1))} : n \in 0..MaxLen}
-    [] Family = "sblocked" -> UNION {UNION {UNION {{SB(bs, n, o) : o \in Orders(Ix)} : Ix \in SUBSET (0..(n-1))} : n \in 0..MaxLen} : bs \in 1..3}
+    [] Family = "sparse"  -> UNION {UNION {UNION {{S(n, o, jk) : jk \in Junks(o)} : o \in Orders(Ix)} : Ix \in SUBSET (0..(n-1))} : n \in 0..MaxLen}
+    [] Family = "sblocked" -> UNION {UNION {UNION {UNION {{SB(bs, n, o, jk) : jk \in Junks(o)} : o \in Orders(Ix)} : Ix \in SUBSET (0..(n-1))} : n \in 0..MaxLen} : bs \in 1..3}
 
 (***************************************************************************)
 (* values                                                                   *)
@@ -91,7 +99,18 @@ PVal(s, i) ==
   CASE Palette = 1 -> ((i * 3 + s * 5) % 7) - 3
     [] Palette = 2 -> (IF (i + s) % 3 = 0 THEN -1 ELSE 1) * Pow2((i + 2 * s) % 5)
     [] Palette = 3 -> Spread[((i + 3 * s) % 9) + 1]
-SlotVec(sh, s) == [i \in 1..FlatLen(sh) |-> IF i \in Stored(sh) THEN PVal(s, i) ELSE 0]
+\* the writes of slot s of a sparse shape: [i |-> index, val |-> block of bs values]; the last write of an index
+\* carries the palette value of its flat positions, every earlier (superseded) write the junk value
+IsLastWrite(sh, q) == \A r \in (q+1)..Len(sh.ins) : sh.ins[r] # sh.ins[q]
+Writes(sh, s) == [q \in 1..Len(sh.ins) |->
+                   [i |-> sh.ins[q], val |-> [j \in 1..sh.bs |-> IF IsLastWrite(sh, q) THEN PVal(s, sh.ins[q] * sh.bs + j) ELSE sh.junk]]]
+\* Flat of a write history: last write wins, never written = 0
+FlatOfWrites(len, bs, w) == [p \in 1..len |->
+                   LET e == (p - 1) \div bs  j == ((p - 1) % bs) + 1
+                       Q == {q \in 1..Len(w) : w[q].i = e}
+                   IN IF Q = {} THEN 0 ELSE w[CHOOSE q \in Q : \A r \in Q : r <= q].val[j]]
+SlotVec(sh, s) == IF sh.k \in {"sparse", "sblocked"} THEN FlatOfWrites(FlatLen(sh), sh.bs, Writes(sh, s))
+                  ELSE [i \in 1..FlatLen(sh) |-> PVal(s, i)]
 
 Alphas == {<<0, 1>>, <<1, 1>>, <<-1, 1>>, <<2, 1>>, <<-1, 2>>, <<-5, 2>>}
 AbsVec(x) == [i \in 1..Len(x) |-> Abs(x[i])]
@@ -215,6 +234,11 @@ DenseCopyOp == /\ ph = "init" /\ Family \in {"blocked", "tuple", "power"}
 (* the extremal elements.  The API does not say whether the implicit zeros  *)
 (* take part in max/min: the calls are generated where both readings agree  *)
 (* (always when every position is stored) and at least one entry is stored. *)
+(* The vector is given by its write history (Writes); its contents are the  *)
+(* last-write-wins Flat of the history, whatever was written before and     *)
+(* whichever accessor is called first after the writes: the replayer issues *)
+(* the call under test as the FIRST access after the writes (the container  *)
+(* sorts and drops superseded writes lazily), then reads everything back.   *)
 (***************************************************************************)
 IsS == Family \in {"sparse", "sblocked"}
 StoredVals == LET st == SetToSortSeq(Stored(shape), <) IN [q \in 1..Len(st) |-> v[1][st[q]]]
@@ -252,6 +276,9 @@ AliasLaws == ph = "done" =>
   /\ (call.op = "triple_dot" /\ call.x = call.y => out.res[1] = Dot(v[1], CompProd(v[call.x], v[call.x])))
   /\ (call.op = "axpy" /\ call.an = 0 => out.post[1] = Scale(call.ad, v[1]))
   /\ (call.op = "copy" /\ call.x = 1 => out.post[1] = v[1])
+\* last-write-wins: the contents of a sparse vector do not depend on the superseded writes or the write order
+HistoryLaw == IsS => /\ v[1] = [i \in 1..FlatLen(shape) |-> IF i \in Stored(shape) THEN PVal(1, i) ELSE 0]
+                     /\ \A q \in 1..Len(shape.ins) : ~IsLastWrite(shape, q) => \A j \in 1..shape.bs : Writes(shape, 1)[q].val[j] = shape.junk
 \* first/rest recursion of the composed vectors: reductions are sums / extrema over the leaves
 Seg(x, from, len) == [i \in 1..len |-> x[from + i - 1]]
 LeafOff(k) == SumSeq([q \in 1..(k-1) |-> LeafLens(shape)[q]])
@@ -280,5 +307,6 @@ Emit == ph = "done" =>
   PrintT(ToJson([fam |-> Family, pal |-> Palette, shape |-> shape, flen |-> FlatLen(shape), nleaf |-> Len(LeafLens(shape)),
                  op |-> call.op, x |-> call.x, y |-> call.y, an |-> call.an, ad |-> call.ad, blk |-> call.blk, av |-> AV,
                  pre |-> v, post |-> out.post, wden |-> out.wden, res |-> out.res, rden |-> out.rden, rkind |-> out.rkind,
-                 aux |-> out.aux, auxpost |-> out.auxpost]))
+                 aux |-> out.aux, auxpost |-> out.auxpost,
+                 writes |-> IF IsS THEN Writes(shape, 1) ELSE <<>>]))
 =============================================================================
